@@ -193,6 +193,25 @@ func specPops(c *ByteCode) IntType {
 	return 0
 }
 
+// specPushes: number of values instruction c leaves on the operand stack when it completes without error
+// (jump-and-keep je.dup and the two block pops are stated separately in the contract of evaluate).
+func specPushes(c *ByteCode) IntType {
+	switch c.T {
+	case typePushIntNumber, typePushFloatNumber, typePushString, typePushArray, typePushDict, typePushRange, typePushComputed,
+		typePushNull, typePushThis, typePushFunction, typePushLast, typePushDefaultExpr,
+		typeLoadFormatString, typeLoadName, typeLoadNameWithDetail, typeLoadNameRaw, typeStoreName,
+		typeInvoke, typeItemGet, typeAttrGet, typeSliceGet,
+		typeAdd, typeSubtract, typeMultiply, typeDivide, typeModulus, typeExponentiation, typeNullCoalescing,
+		typeCompLT, typeCompLE, typeCompEQ, typeCompNE, typeCompGE, typeCompGT, typeBitwiseAnd, typeBitwiseOr, typeLogicAnd,
+		typeNegation, typePositive, typeDice, typeCustomDice, typeDiceCocPenalty, typeDiceCocBonus, typeDiceFate, typeDiceWod, typeDiceDC:
+		return 1
+	}
+	return 0
+}
+
+func specPopsV(c ByteCode) IntType   { return specPops(&c) }
+func specPushesV(c ByteCode) IntType { return specPushes(&c) }
+
 // ---- lemma functions: the contract is proved from the empty body; ghost code calls them ----
 
 // for 0 <= a <= t the product a*h lies between 0 and t*h
@@ -529,20 +548,22 @@ func RollDoubleCross
 func (*ParserData).checkStackOverflow
   props C07 C08 C01
   requires e != nil && 0 <= e.codeIndex && e.codeIndex <= len(e.code) && len(e.code) >= 1
-  assigns ParserData.code ByteCode.*
+  assigns ParserData.code ParserData.codeOverflow ByteCode.*
   ensures e.codeIndex == old(e.codeIndex) && e.codeIndex <= len(e.code) && len(e.code) >= old(len(e.code))
   ensures !result ==> e.codeIndex < len(e.code)
   ensures forall k in [0, e.codeIndex): e.code[k] == old(e.code[k])
-  goal [C07] !result
+  ensures [C07] result ==> e.codeOverflow
+  ensures [C07] old(e.codeOverflow) ==> e.codeOverflow
 
 func (*ParserData).WriteCode
   props C07 C08 C01
   requires e != nil && 0 <= e.codeIndex && e.codeIndex <= len(e.code) && len(e.code) >= 1
-  assigns ParserData.code ParserData.codeIndex ByteCode.*
+  assigns ParserData.code ParserData.codeIndex ParserData.codeOverflow ByteCode.*
   ensures e.codeIndex <= len(e.code) && len(e.code) >= 1
   ensures e.codeIndex == old(e.codeIndex) || e.codeIndex == old(e.codeIndex) + 1
   ensures [C07 C08] e.codeIndex == old(e.codeIndex) + 1 ==> e.code[old(e.codeIndex)].T == T && e.code[old(e.codeIndex)].Value == value
-  goal [C07 C08] e.codeIndex == old(e.codeIndex) + 1
+  ensures [C07 C08] e.codeIndex == old(e.codeIndex) + 1 || e.codeOverflow
+  ensures [C07] old(e.codeOverflow) ==> e.codeOverflow
   ensures forall k in [0, old(e.codeIndex)): e.code[k] == old(e.code[k])
 
 func (*ParserData).OffsetPush
@@ -821,6 +842,33 @@ func (*Context).evaluate
     invariant len(e.stack) == 1000 && &e.stack[0] == &stack[0] && 0 <= e.top && e.top <= 1000
     invariant forall j in [0, e.top): wfValue(&stack[j])
     invariant lastPop == nil || wfValue(lastPop)
+  ghost var gtop int = 0
+  ghost var gblk int = 0
+  ghost var gfblk int = 0
+  ghost var gcb bool = false
+  ghost var stCalls int = 0
+  ghost var cdCalls int = 0
+  ghost at loop 3 begin: gtop = e.top; stCalls = 0; cdCalls = 0; gcb = e.Config.CallbackSt != nil
+  ghost at loop 3 begin: if blockIndex >= 1 { gblk = blockStack[blockIndex-1] }; if fstrBlockIndex >= 1 { gfblk = fstrBlockStack[fstrBlockIndex-1] }
+  ghost at precall 1 CallbackSt: stCalls = stCalls + 1; ghostAssert(arg0 == "set" && arg2 != nil && isFresh(arg2) && arg4 == "" && arg5 == "")
+  ghost at precall 2 CallbackSt: stCalls = stCalls + 1; ghostAssert(arg0 == "mod" && arg2 != nil && isFresh(arg2) && arg4 == stInfo.Op && arg5 == stInfo.Text)
+  ghost at precall 3 CallbackSt: stCalls = stCalls + 1; ghostAssert(arg0 == "set.x0" && arg2 != nil && isFresh(arg2))
+  ghost at precall 4 CallbackSt: stCalls = stCalls + 1; ghostAssert(arg0 == "set.x1" && arg2 != nil && isFresh(arg2) && arg3 != nil && isFresh(arg3))
+  ghost at precall 1 fn: cdCalls = cdCalls + 1; ghostAssert(arg0 == ctx && (arg1 == nil || isFresh(arg1)) && len(arg1) == len(compiled.groups))
+  ghost at loop 3 end: if code.T != typeJeDup && code.T != typeBlockPop && code.T != typeFStringBlockPop && code.T != typeLoadFormatString { ghostAssert(ctx.Error == nil ==> IntType(e.top) == IntType(gtop) - specPopsV(code) + specPushesV(code)) }
+  ghost at loop 3 end: if code.T == typeLoadFormatString { ghostAssert(IntType(e.top) == IntType(gtop) - code.Value.(IntType) + 1 && stack[e.top-1].TypeId == VMTypeString) }
+  ghost at loop 3 end: if code.T == typeJeDup { ghostAssert(e.top == gtop - 1 || e.top == gtop) }
+  ghost at loop 3 end: if code.T == typeBlockPop { ghostAssert(e.top == gblk + 1) }
+  ghost at loop 3 end: if code.T == typeFStringBlockPop { ghostAssert(e.top == gfblk + 1) }
+  ghost at loop 3 end: if code.T == typeStSetName || code.T == typeStModify || code.T == typeStX0 || code.T == typeStX1 { ghostAssert(gcb ==> stCalls == 1); ghostAssert(!gcb ==> stCalls == 0) } else { ghostAssert(stCalls == 0) }
+  ghost at loop 3 end: if code.T == typeCustomDice { ghostAssert(cdCalls == 1) } else { ghostAssert(cdCalls == 0) }
+  closure numOpCountAdd
+    requires [C07] count >= 0
+    ensures [C07] old(e.NumOpCount) + count <= math.MaxInt64 ==> e.NumOpCount == old(e.NumOpCount) + count
+    ensures [C07] old(e.NumOpCount) + count > math.MaxInt64 ==> e.NumOpCount == math.MaxInt64
+    ensures [C07] e.NumOpCount >= old(e.NumOpCount)
+    ensures [C07] ctx.Config.OpCountLimit > 0 && e.NumOpCount > ctx.Config.OpCountLimit ==> result && ctx.Error != nil
+    ensures [C07] !result ==> ctx.Error == old(ctx.Error)
   ghost at loop 3 begin: ghostProtectFields(ctx, "code", "codeIndex", "stack", "top", "parser"); ghostProtect(diceStates); ghostProtect(details, "Begin", "End"); ghostProtectFields(ctx.parser, "data")
   ghost at loop 3 begin: ghostAssume(IntType(e.top) >= specPops(&e.code[opIndex]), "bytecode passes the stack-height typing of C08 (operand stack holds the operands of the current instruction)")
   ghost at loop 3 begin: ghostAssume(!specNeedsDetail(e.code[opIndex].T) || len(details) >= 1, "bytecode: a mark.detail precedes every instruction that annotates a detail span (C08)")
@@ -830,6 +878,12 @@ func (*Context).evaluate
   ghost at loop 3 begin: ghostAssume(e.code[opIndex].T != typeFStringBlockPop || e.top >= fstrBlockStack[fstrBlockIndex-1], "bytecode: a template block never pops below the height saved by its fstr.block.push (C08)")
   ghost at loop 3 begin: ghostAssume(e.code[opIndex].T != typeBlockPop || e.top >= blockStack[blockIndex-1], "bytecode: a block never pops below the height saved by its block.push (C08)")
   ghost at loop 3 end: if code.T == typeDiceInit { ghostAssert(diceStateIndex >= 0 && diceStates[diceStateIndex].times == 1 && diceStates[diceStateIndex].isKeepLH == 0 && diceStates[diceStateIndex].min == nil && diceStates[diceStateIndex].max == nil) }
+
+func cloneStrings
+  props C17
+  assigns elem.string
+  ensures len(result) == len(src) && isFresh(result) && (len(src) > 0 ==> result != nil)
+  ensures forall k in [0, len(src)): result[k] == src[k]
 
 func NewDictValWithArray
   props C01 C10
